@@ -92,6 +92,19 @@ def ser_schema(world, crate, ty):
                     if pa.endswith("(%s)" % f):
                         skip = n(term[1]).split("::")[-1] if term[0] == "call" else pa
                         skip = {"is_none": "None", "is_empty": "empty", "not": "false"}.get(skip, skip)
+                        if term[0] == "call" and world is not None:
+                            # a named predicate function: classify it by what it computes
+                            from . import optnorm
+                            pv = optnorm._local_callee(world, bv, term)
+                            if pv is not None and pv.argc == 1:
+                                r_ = pv.trace_local(0)
+                                while r_[0] in ("ref", "deref"):
+                                    r_ = r_[1]
+                                arg_ = lambda x: lib.strip_refs(x) == ("param", 1)
+                                if r_[0] == "unop" and r_[1] == "Not" and arg_(r_[2]):
+                                    skip = "false"
+                                elif r_[0] == "call" and r_[2] and arg_(r_[2][0]):
+                                    skip = {"is_none": "None", "is_empty": "empty", "not": "false"}.get(n(r_[1]).split("::")[-1], skip)
             items.append({"key": key, "field": f.replace("self.", ""), "skip_if": skip, "type": _ty(bv, t, 1 if len(t.get("substs", [])) > 2 else 0, last=True)})
         out["items"] = items
         return out
